@@ -360,70 +360,3 @@ func bothExclusive(d *dg.Design, a *dg.Attr, v *dg.Val, path string) bool {
 	_, val := d.Effective(as[len(as)-1])
 	return val.ExclMin != nil && val.ExclMax != nil
 }
-
-// generatesOutsidePointerCtx mirrors what makes goa emit a Validate call for a user
-// type met as a map key / value: some validation other than `required` reachable, or a
-// required attribute that is not a primitive held by value.
-func generatesOutsidePointerCtx(d *dg.Design, a *dg.Attr, seen map[string]bool) bool {
-	bt, val := d.Effective(a)
-	if len(val.Enum) > 0 || val.Format != "" || val.Pattern != "" || val.Min != nil || val.Max != nil || val.ExclMin != nil || val.ExclMax != nil || val.MinLen != nil || val.MaxLen != nil {
-		return true
-	}
-	switch bt.Kind {
-	case "array":
-		return generatesOutsidePointerCtx(d, bt.Elem, seen)
-	case "map":
-		return generatesOutsidePointerCtx(d, bt.Key, seen) || generatesOutsidePointerCtx(d, bt.Elem, seen)
-	case "collection":
-		return generatesOutsidePointerCtx(d, &dg.Attr{T: dg.Type{Kind: "user", Ref: bt.Ref}}, seen)
-	case "object", "user":
-		if a.T.Kind == "user" {
-			if seen[a.T.Ref] {
-				return false
-			}
-			seen[a.T.Ref] = true
-		}
-		for _, f := range d.AllFields(&a.T) {
-			fbt, _ := d.Effective(&f.A)
-			if f.Required && !(fbt.Kind == "prim" && fbt.Prim != "Bytes" && fbt.Prim != "Any") {
-				return true
-			}
-			if generatesOutsidePointerCtx(d, &f.A, seen) {
-				return true
-			}
-		}
-	}
-	return false
-}
-
-// mapNestedCollectionRequiredOnly: the violated `required` rule sits in a user type whose
-// only validations are required primitive attributes, met as element of an array or value /
-// key of a map that is itself BELOW A MAP with no user type in between: goa validates
-// arrays and maps found under a map with Pointer = false, where hasValidations finds
-// nothing to call for such a type. (User types that are directly keys / values of a map
-// keep the attribute context since the repair of recurseValidationCode.)
-func mapNestedCollectionRequiredOnly(d *dg.Design, a *dg.Attr, path string) bool {
-	if a == nil {
-		return false
-	}
-	as := attrsAlong(d, a, path)
-	ptrFalse := false
-	for i := 0; i+1 < len(as); i++ {
-		bt, _ := d.Effective(as[i])
-		ch := as[i+1]
-		cbt, _ := d.Effective(ch)
-		chUser := ch.T.Kind == "user" && cbt.Kind == "object"
-		switch {
-		case as[i].T.Kind == "user" && bt.Kind == "object":
-			ptrFalse = false // inside Validate<T>: the file context again
-		case bt.Kind == "map":
-			if !chUser && cbt.Kind != "object" {
-				ptrFalse = true
-			}
-		}
-		if ptrFalse && chUser && (bt.Kind == "map" || bt.Kind == "array") && !generatesOutsidePointerCtx(d, ch, map[string]bool{}) {
-			return true
-		}
-	}
-	return false
-}
